@@ -44,20 +44,39 @@ Proof. exact permitting_ok_true. Qed.
 Print Assumptions C05_permitting_commands.
 
 (* nothing is lost by a non-permitting pop: every responder is either handled now or kept *)
-Theorem C05_pop_partition : forall permit rs skip p q, pop_go permit skip rs = (p, q) ->
+Theorem C05_pop_partition : forall permit rs skip readd p q, pop_go permit skip readd rs = (p, q) ->
   forall r, In r rs <-> In r p \/ In r q.
 Proof. exact pop_go_partition. Qed.
 Print Assumptions C05_pop_partition.
 
 (* (3) a message that was removed and put back is never announced as present before its removal: per message, what a
    non-permitting pop handles is a prefix of that message's exists/expunge sequence which stops before the first expunge *)
-Theorem C05_readd_not_before_removal : forall m rs skip p q,
+Theorem C05_readd_not_before_removal : forall m rs skip readd p q,
   existsb (N.eqb m) skip = false -> alt m rs ->
-  pop_go false skip rs = (p, q) ->
+  pop_go false skip readd rs = (p, q) ->
   filter (about m) p ++ filter (about m) q = filter (about m) rs /\
   (forall r, In r (filter (about m) p) -> is_rexpunge r = false).
 Proof. exact pop_prefix. Qed.
 Print Assumptions C05_readd_not_before_removal.
+
+(* ... and what is said about the message after it was put back (flag changes of the new instance) is not handled before
+   the held exists either: it stays queued behind it, in order (repaired defect: it used to be applied to the instance
+   that the next permitting command removes, and was lost for the new one — C02_old_policy_loses_flag_change) *)
+Theorem C05_changes_of_readded_message_wait : forall pre m u f tg og post p q,
+  pop_responders false (pre ++ RExists m u f tg og :: post) = (p, q) ->
+  existsb (N.eqb m) (fst (pop_state [] [] pre)) = true ->
+  exists p1 q1 p2 q2,
+    pop_responders false pre = (p1, q1) /\ p = p1 ++ p2 /\ q = q1 ++ RExists m u f tg og :: q2 /\
+    (forall r, In r p2 -> is_fetch_of m r = false) /\
+    filter (is_fetch_of m) q2 = filter (is_fetch_of m) post.
+Proof. exact held_readd_holds_later_fetches. Qed.
+Print Assumptions C05_changes_of_readded_message_wait.
+
+Example C05_changes_wait_example :
+  pop_responders false [RExpunge 1; RExists 1 3 [] false false; RFetch 1 [5] FAdd false false false; RFetch 2 [5] FAdd false false false]
+  = ([RFetch 2 [5] FAdd false false false], [RExpunge 1; RExists 1 3 [] false false; RFetch 1 [5] FAdd false false false])
+  /\ existsb (N.eqb 1) (fst (pop_state [] [] [RExpunge 1])) = true.
+Proof. split; reflexivity. Qed.
 
 (* (4) [EXPUNGEISSUED]: the flag the three handlers consult is true exactly when a removal is (still) held back *)
 Theorem C05_expungeissued_iff_held : forall st st' out,
